@@ -208,6 +208,9 @@ def _case(seed: int) -> Dict[str, Any]:
     with rt.trace_dir(per_rank) as d:
         try:
             ta = rt.lib(fails, "load", {"seed": seed, "events": per_rank}, rt.load_analysis, d)
+            if any((ta.t.get_trace(rk)["stream"] != -1).sum() == 0 for rk in per_rank):
+                # the property is stated for traces in which EACH rank has at least one device activity
+                return {"n_checks": 0, "fails": [], "nontrivial": False, "clauses": {}, "sample": {"seed": seed, "skipped": "a rank without device activity (outside the property's quantifier)"}}
             out = rt.lib(fails, "get_temporal_breakdown", {"seed": seed, "events": per_rank}, ta.get_temporal_breakdown, visualize=False)
         except rt.LibFailure:
             return {"n_checks": 1, "fails": fails, "nontrivial": True, "clauses": {}}
